@@ -204,4 +204,33 @@ example : let F : Font := { glyph := fun c => if c = 0x41 ∨ c = 0x302 ∨ c = 
   refine ⟨?_, by decide +kernel⟩
   exact Cand.step d1 (Or.inr (by decide)) (Cand.base d2 (by decide) (Or.inr (by decide)))
 
+/-! ## the reorder round -/
+
+/-- **The second round is the canonical ordering algorithm.**  `strip` forgets cluster and mask (the
+    round merges clusters while it moves records); `canonReorder` (Lemmas/Norm.lean) is UAX #15's
+    canonical ordering with the crate's modified classes and its cap: every maximal run of records with
+    non-zero modified ccc that has at most `MAX_COMBINING_MARKS` records is replaced by `insertAll [] run`,
+    longer runs are left alone.  (2) says `insertAll [] run` is *the* stable sort of `run` by modified ccc:
+    a permutation, sorted, and the records of each class keep their relative order.
+    (3) is the C08 part: the round only permutes the records. -/
+theorem C09_sort_canonical (K : Consts) :
+    (∀ l, (round2 K l).map strip = canonReorder K.maxMarks (l.map strip)) ∧
+    (∀ run, (insertAll [] run).Perm run ∧ SortedMcc (insertAll [] run) ∧
+      ∀ c, (insertAll [] run).filter (fun y => y.mcc == c) = run.filter (fun y => y.mcc == c)) ∧
+    (∀ l, ((round2 K l).map strip).Perm (l.map strip)) := by
+  refine ⟨round2_strip K, ?_, ?_⟩
+  · intro run
+    refine ⟨by simpa using insertAll_perm [] run, insertAll_sorted [] run List.Pairwise.nil, ?_⟩
+    intro c
+    simpa using insertAll_stable [] run c
+  · intro l
+    rw [round2_strip]
+    exact canonReorder_perm _ _
+
+/-- the sort does reorder: acute (230) before dot below (220) is swapped, and the clusters are merged -/
+example :
+    let mk (cp cl ccc : Nat) : Info := { cp := cp, mask := 0, cluster := cl, gidx := 0, props := { cls := 1, hi := ccc } }
+    sortGo genK [] 2 [mk 0x301 1 230, mk 0x323 2 220] = [mk 0x323 1 220, mk 0x301 1 230] := by
+  decide
+
 end RbModel.Props.C09
